@@ -244,6 +244,7 @@ type translator struct {
 	s    *Schema
 
 	encUnchecked int // bin.Object fields encoded without a nil check
+	soft         string // a defect that does not stop the translation of the field list
 }
 
 func (t *translator) sel(e ast.Expr) (string, bool) { // recv.Field
@@ -476,9 +477,11 @@ func (t *translator) decodeField(c *Ctor, body []ast.Stmt) (*Field, string) {
 			mc, ok := mk.Rhs[0].(*ast.CallExpr)
 			if !ok || len(mc.Args) != 3 || src(t.p.fset, mc.Fun) != "make" || src(t.p.fset, mc.Args[1]) != "0" ||
 				src(t.p.fset, mc.Args[2]) != "headerLen % bin.PreallocateLimit" {
-				return nil, "preallocation is not make(T, 0, headerLen % bin.PreallocateLimit): " + src(t.p.fset, mk)
+				// keep reading the field (the monitor still needs its type), but the constructor is bad
+				t.soft = "preallocation is not make(T, 0, headerLen % bin.PreallocateLimit): " + src(t.p.fset, mk)
+			} else {
+				c.MakesCap++
 			}
-			c.MakesCap++
 			loop, ok := body[3].(*ast.ForStmt)
 			if !ok || src(t.p.fset, loop.Init) != "idx := 0" || src(t.p.fset, loop.Cond) != "idx < headerLen" ||
 				src(t.p.fset, loop.Post) != "idx++" {
@@ -883,6 +886,13 @@ func buildSchema(repo string) (*Schema, error) {
 			t.readDecodeBare(c, p.methods[n]["DecodeBare"])
 			if c.Bad != "" {
 				continue
+			}
+			if t.soft != "" {
+				defer func(c *Ctor, why string) {
+					if c.Bad == "" {
+						c.Bad = "DecodeBare: " + why
+					}
+				}(c, t.soft)
 			}
 			if why := t.readBoxed(c, p.methods[n]["Encode"], p.methods[n]["Decode"]); why != "" {
 				c.Bad = why
